@@ -96,7 +96,7 @@ pub(crate) mod driver {
         }
     }
 
-    fn country_of(id: u64) -> String {
+    pub(crate) fn country_of(id: u64) -> String {
         format!("C{id:016x}")
     }
 
@@ -125,6 +125,23 @@ pub(crate) mod driver {
             }
             p.v4.push((m.to_string(), "other".into(), Ipv4Addr::from(key_bytes::<4>(case, &format!("other.{m}")))));
         }
+        // keys a routing-table peer holds according to its slot record (engine-level step obligations)
+        for (m, _) in cand6 {
+            if case.get(&format!("held.{m}.0")).is_some() {
+                p.v6.push((m.to_string(), "held".into(), Ipv6Addr::from(key_bytes::<16>(case, &format!("held.{m}")))));
+            }
+        }
+        for (m, _) in cand4 {
+            if case.get(&format!("held.{m}.0")).is_some() {
+                p.v4.push((m.to_string(), "held".into(), Ipv4Addr::from(key_bytes::<4>(case, &format!("held.{m}")))));
+            }
+        }
+        if case.get("held.asn_counts").is_some() {
+            p.asn.push(("held".into(), u(case, "held.asn_counts") as u32));
+        }
+        if case.get("held.country_counts").is_some() {
+            p.country.push(("held".into(), country_of(u(case, "held.country_counts"))));
+        }
         p.asn.push(("cand".into(), u(case, "a.asn") as u32));
         p.asn.push(("other".into(), u(case, "other.asn_counts") as u32));
         p.country.push(("cand".into(), country_of(u(case, "a.country"))));
@@ -137,7 +154,7 @@ pub(crate) mod driver {
         e.set_network_size(u(case, "network_size") as usize);
         let p = probes(case);
         // 'other' first so that a coinciding 'cand' pin wins (they agree in a consistent model anyway)
-        for pass in ["other", "cand"] {
+        for pass in ["other", "held", "cand"] {
             for (m, label, k) in &p.v6 {
                 if label == pass && b(case, &format!("E.{m}@{label}.present")) {
                     v6map(&mut e, m).put(*k, u(case, &format!("E.{m}@{label}.v0")) as usize);
